@@ -74,6 +74,8 @@ def cone(prop):
     lem = [(n, li) for n, li in spec.LEMMAS.items() if prop in li.opts.get("props", [])]
     import ast as _ast
     for n, li in lem:
+        if li.opts.get("bounded_only"):
+            continue      # native-only lemmas drive the real code; they add no contracts to the proof cone
         for sub in _ast.walk(loader.LEMMA_AST[n]):
             if isinstance(sub, _ast.Call) and isinstance(sub.func, _ast.Attribute):
                 cand = f"api.Converter.{sub.func.attr}"
@@ -421,6 +423,27 @@ def run_selftest(tier, seed):
     return 3 if bad or not n else 0
 
 
+def run_lemmas():
+    """Layer S: every axiom of the uninterpreted-string theory (Layer U) is proved against the native SMT-LIB
+    string-theory definitions of the same symbols (what Python's str does)."""
+    from pyvc import smt
+    bad = 0
+    t0 = time.time()
+    rows = []
+    for n, ax in smt.STR_AXIOMS:
+        r = smt.solve(smt.axiom_proof_query(ax), 30, order=("cvc5", "cvc5-new", "z3-new"), stagger=0.0)
+        rows.append({"axiom": n, "result": r["result"], "solver": r["solver"], "s": round(r["s"], 3)})
+        print(f"axiom {n}: {r['result']} ({r['solver']}, {r['s']:.2f}s)")
+        bad += r["result"] != "unsat"
+    os.makedirs(EVID, exist_ok=True)
+    json.dump({"axioms": rows, "all_proved": bad == 0, "wall_s": round(time.time() - t0, 2),
+               "assumed_without_smt_counterpart": ["casefold is a function", "isalnum abstract", "str_le is Python's total order on str",
+                                                   "rsplit(d, 1) of a string containing d recomposes (rpart_before + d + rpart_after)", "join_sorted is a function of the list value"]},
+              open(os.path.join(EVID, "string_axioms.json"), "w"), indent=1)
+    print(f"lemmas: {len(rows)} axioms, {bad} not proved")
+    return 3 if bad else 0
+
+
 def norm_label(label):
     import re as _re
     return _re.sub(r":\d+:", ":", label)
@@ -480,6 +503,8 @@ def main(argv=None):
         return run_selftest(a.tier, seed)
     if a.prop == "rebaseline":
         return rebaseline()
+    if a.prop == "lemmas":
+        return run_lemmas()
     try:
         return run_property(a.prop, a.tier if a.tier in ("quick", "thorough") else "quick", seed)
     except SystemExit:
